@@ -688,6 +688,130 @@ window_move_trigger!(c05_window_move_trigger_offset_55, 55);
 //@ endfamily: x
 
 // ---------------------------------------------------------------------------------------------
+// Sparse -> windowed promotion, in the same two composed parts: (a) update_sparse promotes exactly when
+// the flavor prescribed by the coupon count leaves Sparse (every lg_k; table insert = recorder with an
+// arbitrary novelty answer, promotion = recorder, HIP update cut); (b) promote_sparse_to_windowed
+// re-encodes an arbitrary 4-slot table exactly (lg_k = 4; table insert = recorder).
+// ---------------------------------------------------------------------------------------------
+static mut SP_NOVEL: bool = false;
+static mut SP_PROMOTED: u32 = 0;
+pub(crate) fn sp_maybe_insert(_t: &mut PairTable, _item: u32) -> bool {
+    unsafe { SP_NOVEL }
+}
+pub(crate) fn sp_promote(_s: &mut CpcSketch) {
+    unsafe {
+        SP_PROMOTED += 1;
+    }
+}
+pub(crate) fn sp_update_hip(_s: &mut CpcSketch, _rc: u32) {}
+
+//@ props: C05
+//@ tier: quick
+//@ timeout: 600
+//@ functions: cpc::sketch::CpcSketch::row_col_update
+//@ functions: cpc::sketch::CpcSketch::update_sparse
+//@ functions: cpc::determine_flavor
+//@ stubs: PairTable::maybe_insert -> returns an arbitrary novelty answer; CpcSketch::promote_sparse_to_windowed -> recorder; CpcSketch::update_hip -> no-op
+//@ replay_stub: cpc/pair_table.rs | pub fn maybe_insert(&mut self, item: u32) -> bool { | if true { return crate::cpc::sketch::verif_kani_cpc_sketch::sp_maybe_insert(self, item); }
+//@ replay_stub: cpc/sketch.rs | fn promote_sparse_to_windowed(&mut self) { | if true { return self::verif_kani_cpc_sketch::sp_promote(self); }
+//@ replay_stub: cpc/sketch.rs | fn update_hip(&mut self, row_col: u32) { | if true { return self::verif_kani_cpc_sketch::sp_update_hip(self, row_col); }
+//@ bounds: every lg_k in 4..=26, every coupon count of the Empty / Sparse flavors (32C < 3K), either answer of the table (novel / duplicate), any (row, col)
+//@ desc: one update of a Sparse (or Empty) sketch: num_coupons grows exactly when the table reports a novel pair, and the sketch is promoted to the windowed form exactly when determine_flavor of the new count is no longer Sparse - never earlier, never later; the debug assertion on entry holds
+#[kani::proof]
+#[kani::unwind(6)]
+#[kani::stub(crate::cpc::pair_table::PairTable::maybe_insert, sp_maybe_insert)]
+#[kani::stub(CpcSketch::promote_sparse_to_windowed, sp_promote)]
+#[kani::stub(CpcSketch::update_hip, sp_update_hip)]
+fn c05_sparse_promotion_trigger_every_lg_k() {
+    let lg_k: u8 = kani::any();
+    kani::assume(lg_k >= 4 && lg_k <= 26);
+    let c: u32 = kani::any();
+    kani::assume(32 * (c as u64) < 3 * (1u64 << lg_k));
+    let novel: bool = kani::any();
+    unsafe {
+        SP_NOVEL = novel;
+        SP_PROMOTED = 0;
+    }
+    let mut s = CpcSketch::new(4);
+    s.lg_k = lg_k;
+    s.num_coupons = c;
+    s.surprising_value_table = Some(vt::raw_table(2, &[u32::MAX; 4]));
+    let rc: u32 = kani::any();
+    kani::assume((rc >> 6) < (1u32 << lg_k));
+    s.row_col_update(rc);
+    let c1 = c + if novel { 1 } else { 0 };
+    assert!(s.num_coupons == c1, "num_coupons does not count the novel pairs");
+    let left_sparse = !matches!(crate::cpc::determine_flavor(lg_k, c1), Flavor::Sparse | Flavor::Empty);
+    let promoted = unsafe { SP_PROMOTED };
+    assert!(promoted == if novel && left_sparse { 1 } else { 0 }, "promotion to the windowed form does not follow the flavor of the coupon count");
+    kani::cover!(promoted == 1 && lg_k == 26);
+    kani::cover!(promoted == 1 && lg_k == 4);
+    kani::cover!(promoted == 0 && novel);
+    core::mem::forget(s);
+}
+
+//@ props: C05
+//@ tier: quick
+//@ timeout: 900
+//@ functions: cpc::sketch::CpcSketch::promote_sparse_to_windowed
+//@ functions: cpc::pair_table::PairTable::new
+//@ stubs: PairTable::maybe_insert -> recorder (returns true)
+//@ replay_stub: cpc/pair_table.rs | pub fn maybe_insert(&mut self, item: u32) -> bool { | if true { return crate::cpc::sketch::verif_kani_cpc_sketch::mw_maybe_insert(self, item); }
+//@ bounds: lg_k = 4, a 4-slot table holding 2..=4 arbitrary pairs (every row and column) at arbitrary slots, num_coupons = number of pairs
+//@ assumes: maybe_insert stores a novel item (decided by c05_pair_table_insert_step)
+//@ desc: promotion re-encodes the coupon set exactly: 16 window bytes = the pairs of columns 0..8, every pair of a column >= 8 is handed once to the fresh table, nothing else; window offset stays 0
+#[kani::proof]
+#[kani::unwind(18)]
+#[kani::stub(crate::cpc::pair_table::PairTable::maybe_insert, mw_maybe_insert)]
+fn c05_promote_sparse_contract() {
+    let slots: [u32; 4] = kani::any();
+    let mut n = 0u32;
+    let mut i = 0;
+    while i < 4 {
+        kani::assume(slots[i] == u32::MAX || slots[i] < (16 << 6));
+        if slots[i] != u32::MAX {
+            n += 1;
+        }
+        i += 1;
+    }
+    kani::assume(n >= 2);
+    unsafe {
+        MW_REC_N = 0;
+    }
+    let mut s = CpcSketch::new(4);
+    s.surprising_value_table = Some(vt::raw_table(2, &slots));
+    s.num_coupons = n;
+    s.promote_sparse_to_windowed();
+    assert!(s.window_offset == 0 && s.num_coupons == n);
+    assert!(s.sliding_window.len() == K, "window not sized to k rows");
+    let mut want = [0u8; K];
+    let mut late = 0usize;
+    let mut i = 0;
+    while i < 4 {
+        if slots[i] != u32::MAX {
+            let col = slots[i] & 63;
+            if col < 8 {
+                want[(slots[i] >> 6) as usize] |= 1u8 << col;
+            } else {
+                assert!(late < 4 && unsafe { MW_REC[late] } == slots[i], "a late pair was not handed to the new table (or in a different order / twice)");
+                late += 1;
+            }
+        }
+        i += 1;
+    }
+    assert!(unsafe { MW_REC_N } == late, "the new table received a pair that is not a late coupon");
+    let mut r = 0;
+    while r < K {
+        assert!(s.sliding_window[r] == want[r], "window byte after promotion is not the early pairs of the row");
+        r += 1;
+    }
+    assert!(vt::num_items_of(s.surprising_value_table()) == 0, "the old table was not replaced by a fresh one");
+    kani::cover!(late == 4);
+    kani::cover!(late == 0 && n == 2);
+    core::mem::forget(s);
+}
+
+// ---------------------------------------------------------------------------------------------
 // serialization at sketch level (Empty / Sparse / Hybrid), wrapper agreement, update() derivation
 // ---------------------------------------------------------------------------------------------
 use crate::verif_kani_common::stub_format;
